@@ -54,33 +54,49 @@ def _contains(t, v):
     return False
 
 
+def _flatten(t, num, den):
+    """t = prod(num) / prod(den) over multiplicative structure"""
+    if z3.is_app(t) and t.decl().kind() == z3.Z3_OP_MUL:
+        for c in t.children():
+            _flatten(c, num, den)
+    elif z3.is_app(t) and t.decl().kind() == z3.Z3_OP_DIV:
+        a, b = t.children()
+        _flatten(a, num, den)
+        _flatten(b, den, num)
+    else:
+        num.append(t)
+
+
+def _prod(ts):
+    out = None
+    for t in ts:
+        out = t if out is None else out * t
+    return out
+
+
 def _factor_out(body, kap):
-    """body = coef * core with coef free of kap (or (None, body))"""
+    """body = coef * core with coef free of the summation index kap (or (None, body)); products and quotients
+    are flattened first so that (w/S)*p and (w*p)/S give the same core"""
     if not _contains(body, kap):
-        # constant summand: sum = n*c handled by caller? keep as core (rare)
         return None, body
-    if z3.is_app(body) and body.decl().kind() == z3.Z3_OP_MUL:
-        free = [c for c in body.children() if not _contains(c, kap)]
-        dep = [c for c in body.children() if _contains(c, kap)]
-        if free and dep:
-            coef = free[0]
-            for f in free[1:]:
-                coef = coef * f
-            core = dep[0]
-            for d in dep[1:]:
-                core = core * d
-            c2, core2 = _factor_out(z3.simplify(core), kap)
-            if c2 is not None:
-                return z3.simplify(coef * c2), core2
-            return z3.simplify(coef), z3.simplify(core)
-    if z3.is_app(body) and body.decl().kind() == z3.Z3_OP_DIV:
-        num, den = body.children()
-        if not _contains(den, kap):
-            c2, core2 = _factor_out(num, kap)
-            if c2 is not None:
-                return z3.simplify(c2 / den), core2
-            return z3.simplify(1 / den), num
-    return None, body
+    num, den = [], []
+    _flatten(body, num, den)
+    fnum = [t for t in num if not _contains(t, kap)]
+    fden = [t for t in den if not _contains(t, kap)]
+    dnum = sorted([t for t in num if _contains(t, kap)], key=lambda e: e.sexpr())
+    dden = sorted([t for t in den if _contains(t, kap)], key=lambda e: e.sexpr())
+    if not fnum and not fden and len(dnum) + len(dden) == len(num) + len(den):
+        core = _prod(dnum) if dnum else z3.RealVal(1)
+        if dden:
+            core = core / _prod(dden)
+        return None, z3.simplify(core) if (len(dnum) > 1 or dden) else body
+    core = _prod(dnum) if dnum else z3.RealVal(1)
+    if dden:
+        core = core / _prod(dden)
+    coef = _prod(fnum) if fnum else z3.RealVal(1)
+    if fden:
+        coef = coef / _prod(fden)
+    return z3.simplify(coef), z3.simplify(core)
 
 
 def install(reg):
@@ -859,6 +875,7 @@ def install(reg):
         g = v.getter()
         mask = SArr.fresh(v.shape, lambda idx: (g(idx) if v.dtype == "bool" else T.ne(g(idx), 0)), "bool")
         ms = A.MaskSel(cx, mask, v.shape[0], "nz")
+        cx.ghost.setdefault("first_nonzero", ms)
         ind = SArr.fresh((ms.count,), lambda idx: ms.pos(T.zi(idx[0])), "int", name="nonzero")
         ind.masksel = ms
         return (ind,)
